@@ -596,7 +596,7 @@ func enumerate(alphabet string, maxLen int, f func(string)) {
 
 var reloadPool = []string{"GET@api.com/x", "POST@api.com/y", "GET@api.com/users/{id}", "HEAD@a.org/v1/*",
 	"PUT@api.com/a+b", "GET@{sub}.api.com/x", "GET@api.com/users/{uid}"}
-var reloadSteps = []int64{0, 1, 9999, 10000, 20000, 29999, 30000, 30001, 60000}
+var reloadSteps = []int64{0, 1, 4999, 5000, 5001, 9999, 10000, 20000, 29999, 30000, 30001, 60000}
 
 func genReloadCase(r *prng.R) []string {
 	ops := []string{"mode reload"}
@@ -625,7 +625,13 @@ func genReloadCase(r *prng.R) []string {
 		return fmt.Sprintf("reload g=%d eps=%s", g, l)
 	}
 	last := ""
+	ntx := 0
 	for k := r.Range(2, 6); k > 0; k-- {
+		if last != "" && r.Chance(45) {
+			// a request leg reaches the engine just before the update: the transaction is anchored to the old version
+			ntx++
+			ops = append(ops, fmt.Sprintf("txn id=t%d", ntx))
+		}
 		req := genReq()
 		if last != "" && r.Chance(35) {
 			req = last // the same configuration applied again
@@ -655,6 +661,11 @@ func genReloadCase(r *prng.R) []string {
 			if r.Chance(50) {
 				ops = append(ops, "managed?")
 			}
+			for t := 1; t <= ntx; t++ {
+				if r.Chance(60) {
+					ops = append(ops, fmt.Sprintf("txn? id=t%d", t))
+				}
+			}
 		}
 	}
 	// let everything settle and look
@@ -669,7 +680,16 @@ func genReloadFamily(r *prng.R, k int) []string {
 	ops := []string{"mode reload"}
 	x := "GET@api.com/x"
 	gap := prng.Pick(r, []int64{0, 1, 10000, 29999})
-	switch k % 6 {
+	switch k % 7 {
+	case 6: // a transaction in flight across an update that removes its endpoint: the clock stepped through the
+		// interval in which the engine still serves it from the old version
+		ops = append(ops, "reload g=0 eps="+x+";POST@api.com/y", "txn id=t1", "reload g=0 eps=POST@api.com/y", "txn? id=t1")
+		at := int64(0)
+		for _, t := range []int64{1, 4999, 5000, 5001, 9999, 10000, 15000, 20000, 29999, 30000, 30001} {
+			ops = append(ops, fmt.Sprintf("advance ms=%d", t-at), "txn? id=t1")
+			at = t
+		}
+		ops = append(ops, "managed?")
 	case 4: // multiplicity 2 -> 1 of the SAME expression (one of two plugins disabled), scheduled and immediate
 		from := prng.Pick(r, []string{"@1,1@-", "@1@1", "@-@1,1", "@1,1,1@1"})
 		to := prng.Pick(r, []string{"@1,0@-", "@1@0", "@-@0,1", "@0,0,1@0"})
@@ -705,7 +725,7 @@ func genReloadFamily(r *prng.R, k int) []string {
 }
 
 var malformed = []string{"fmt m=GET", "re e=a", "bogus", "flow name=f1", "req m=GET", "build now", "mode both", "policy name=p m=GET url=a.com",
-	"reload g=0", "advance ms=x", "managed? now", "fail put=1"}
+	"reload g=0", "advance ms=x", "managed? now", "fail put=1", "txn t1", "txn? id"}
 
 func gen(r *prng.R, f proto.Flags, emit func(proto.Case)) {
 	nFmt, nRe, nFlows, nPol, enumLen, nReload := 200, 500, 1500, 700, 3, 150
@@ -772,7 +792,7 @@ func gen(r *prng.R, f proto.Flags, emit func(proto.Case)) {
 		rr := r.Fork()
 		out("rl", genReloadCase(rr), rr)
 	}
-	for k := 0; k < nReload/5+12; k++ {
+	for k := 0; k < nReload/5+14; k++ {
 		rr := r.Fork()
 		out("rf", genReloadFamily(rr, k), nil)
 	}
